@@ -119,6 +119,30 @@ Seam(const char *ty)
   return failures ? 1 : 0;
 }
 
+// bounded: monotonicity across the seam (bin 99 -> bin 100) for ordinary bin counts; the recorded seam finding of the
+// pinned tree only shows for n of several 10^5, so any failure here is a new regression
+template <class T>
+int
+SeamSmall(const char *ty)
+{
+  long cases = 0;
+  for (long long n : {101LL, 102LL, 150LL, 200LL, 500LL, 1000LL, 2000LL, 5000LL, 10000LL, 20000LL}) {
+    for (int a = 0; a <= 300; ++a) {
+      const double alpha = a / 100.0;
+      ApproxZipfDistribution<T> d{static_cast<T>(0), static_cast<T>(n - 1), alpha};
+      ++cases;
+      const double c99 = d.GetCDF(99), c100 = d.GetCDF(100);
+      if (c99 > c100) {
+        std::printf("REPLAY-FAIL: ApproxZipfDistribution<%s>(0, %lld, %g): GetCDF(99) = %.17g > GetCDF(100) = %.17g (a sample with u in between is not the inverse-CDF image)\n", ty, n - 1, alpha, c99, c100);
+        if (++failures > 5) goto done;
+      }
+    }
+  }
+done:
+  std::printf("SEAMSMALL cases=%ld failures=%d\n", cases, failures);
+  return failures ? 1 : 0;
+}
+
 template <class T>
 int
 Sweep(const std::string &cls, const char *ty, uint64_t seed, long count)
@@ -400,6 +424,7 @@ main(int argc, char **argv)
     const uint64_t word = std::strtoull(argv[7], nullptr, 0);
     DISPATCH(argv[3], (Bracket<T>(cls, argv[3], mn, mx, alpha, word)));
   }
+  if (mode == "seam-small" && argc >= 3) DISPATCH(argv[2], (SeamSmall<T>(argv[2])));
   if (mode == "seam" && argc >= 3) DISPATCH(argv[2], (Seam<T>(argv[2])));
   if (mode == "sweep" && argc >= 6) {
     const std::string cls = argv[2];
